@@ -72,7 +72,9 @@ fn select(points: &[Point], rng: &mut Rng, all: bool, budget: usize) -> Vec<Poin
         let first_of_op = i == 0 || points[i - 1].op != points[i].op;
         let last_of_op = i + 1 == points.len() || points[i + 1].op != points[i].op;
         let boundary = i > 0 && points[i - 1].site != points[i].site;
-        if first_of_op || last_of_op || boundary {
+        // the 2nd and 3rd write of a run of writes to the same kind of table: inside the loops over keys / blocks
+        let run_pos = (0..=i).rev().take_while(|j| points[*j].site == points[i].site && points[*j].op == points[i].op).count();
+        if first_of_op || last_of_op || boundary || run_pos == 2 || run_pos == 3 {
             keep[i] = true;
         }
     }
@@ -336,13 +338,13 @@ impl Prop for C04 {
         let mut v = case_of(&g.scenario());
         v["select_seed"] = json!(rng.derive("select").next());
         v["all_points"] = json!(tier == Tier::Thorough);
-        v["budget"] = json!(if tier == Tier::Quick { 36 } else { 100000 });
+        v["budget"] = json!(if tier == Tier::Quick { 60 } else { 100000 });
         // every n-th crash point is cross-checked against a real process kill
         v["real_kill_every"] = json!(if tier == Tier::Quick { 12 } else { 9 });
         v
     }
     fn rule(&self) -> String {
-        "case = one seeded history (commit every 1-3 blocks, reorgs, restarts) + a set of crash points. A first fault-free pass counts every persistent write (failpoint before each RocksDB put/delete/flush of commitToDatabase, reorg and block finalisation); then for each selected (op, write index) the history is re-executed on a fresh directory, the process 'dies' at that write (it and every later write fail, the instance is dropped) and the directory is reopened. Oracle: crash in finalisation => obs == fresh replay to the last commit; crash in commit/reorg => brc20_reorg(H) for H = min(last committed height, reorg target in progress) (plus a deeper H for a sample) must be accepted and obs == fresh replay to H, a sample is then extended by 2 blocks on both sides. quick: table boundaries + first/last write of every op + random fill up to 36 points per history; thorough: every write index. evaluations = crash images checked is reported in events; distinct = sha256 of op list; non-trivial = at least one image inside a commit or reorg was repaired and compared".into()
+        "case = one seeded history (commit every 1-3 blocks, reorgs, restarts) + a set of crash points. A first fault-free pass counts every persistent write (failpoint before each RocksDB put/delete/flush of commitToDatabase, reorg and block finalisation); then for each selected (op, write index) the history is re-executed on a fresh directory, the process 'dies' at that write (it and every later write fail, the instance is dropped) and the directory is reopened. Oracle: crash in finalisation => obs == fresh replay to the last commit; crash in commit/reorg => brc20_reorg(H) for H = min(last committed height, reorg target in progress) (plus a deeper H for a sample) must be accepted and obs == fresh replay to H, a sample is then extended by 2 blocks on both sides. quick: table boundaries + first/last write of every op + the 2nd/3rd write of every run of same-kind writes + random fill up to 60 points per history; thorough: every write index. evaluations = crash images checked is reported in events; distinct = sha256 of op list; non-trivial = at least one image inside a commit or reorg was repaired and compared".into()
     }
     fn assumptions(&self) -> Vec<String> {
         vec![
